@@ -146,14 +146,50 @@ func ctxRequirements(ctx string) (map[string]bool, error) {
 }
 
 // guardCuts: edges to delete for (context, lacking privilege priv of requester own).
+// phiConsts: the integer constants a value can be (a phi of constants, through conversions); nil when some operand
+// is not a constant.
+func phiConsts(v ssa.Value, depth int) []int64 {
+	v = stripConv(v)
+	if k, ok := constInt(v); ok {
+		return []int64{k}
+	}
+	phi, ok := v.(*ssa.Phi)
+	if !ok || depth > 3 {
+		return nil
+	}
+	var out []int64
+	for _, e := range phi.Edges {
+		if e == ssa.Value(phi) {
+			continue
+		}
+		ks := phiConsts(e, depth+1)
+		if ks == nil {
+			return nil
+		}
+		out = append(out, ks...)
+	}
+	return out
+}
+
 func (P *Prog) guardCuts(fn *ssa.Function, own ssa.Value, req map[string]bool, priv int, atomsSeen map[string]bool) map[Edge]bool {
+	cut, _ := P.guardCutsCond(fn, own, req, priv, atomsSeen)
+	return cut
+}
+
+// guardCutsCond also returns the state-dependent cut for tests of the form Authorize(v) with v a variable that was
+// given its privilege number on the way (`required := A; if … { required = B }; if !cc.Authorize(required)`): the
+// true edge is cut on exactly the paths on which v carries the row's privilege.
+func (P *Prog) guardCutsCond(fn *ssa.Function, own ssa.Value, req map[string]bool, priv int, atomsSeen map[string]bool) (map[Edge]bool, func(e Edge, st nilState) bool) {
 	cut := map[Edge]bool{}
+	dyn := map[Edge][]ssa.Value{}
 	factEdges(fn, func(e Edge, f Fact) {
 		if priv >= 0 {
 			for _, pf := range P.expandFact(f, isAuthorizePrim, 0) {
 				if pf.kind == "truth" && pf.holds && len(pf.args) == 2 && pf.args[0] == own {
 					if k, ok := constInt(pf.args[1]); ok && int(k) == priv {
 						cut[e] = true
+					} else if !ok && pf.args[1] != nil {
+						dyn[e] = append(dyn[e], stripConv(pf.args[1]))
 					}
 				}
 			}
@@ -167,7 +203,18 @@ func (P *Prog) guardCuts(fn *ssa.Function, own ssa.Value, req map[string]bool, p
 			}
 		}
 	})
-	return cut
+	var cond func(e Edge, st nilState) bool
+	if len(dyn) > 0 {
+		cond = func(e Edge, st nilState) bool {
+			for _, v := range dyn[e] {
+				if k, ok := st.intOf(v); ok && int(k) == priv {
+					return true
+				}
+			}
+			return false
+		}
+	}
+	return cut, cond
 }
 
 type effSite struct {
@@ -275,6 +322,12 @@ func checkC05(R *Run) {
 					if k, ok := constInt(pf.args[1]); ok {
 						used[int(k)] = P.ipos(pf.call)
 						nGuardSites++
+					} else if pf.args[1] != nil {
+						// a variable that holds one of several privilege numbers: all of them are tested
+						for _, k := range phiConsts(pf.args[1], 0) {
+							used[int(k)] = P.ipos(pf.call)
+						}
+						nGuardSites++
 					}
 				}
 			}
@@ -315,8 +368,8 @@ func checkC05(R *Run) {
 			if r.Priv != nil {
 				priv = *r.Priv
 			}
-			cut := P.guardCuts(fn, own, req, priv, atomsSeen)
-			reach := reachable(fn, cut)
+			cut, cond := P.guardCutsCond(fn, own, req, priv, atomsSeen)
+			reach := reachableCond(fn, cut, cond)
 			construct := fmt.Sprintf("%d %s [%s priv=%s → %s]", reg.Num, fname(fn), r.Ctx, privStr(r.Priv), strings.Join(r.Effects, ","))
 			var bad []string
 			var path []string
@@ -396,12 +449,29 @@ func checkC05(R *Run) {
 		R.analysed(fname(fn))
 		okAll := true
 		why := ""
+		// the values returned: a result written as `a != nil && b` is a phi of (false, b)
+		var retVals []struct {
+			v   ssa.Value
+			ret *ssa.Return
+		}
 		for _, ret := range returnsOf(fn) {
 			if len(ret.Results) != 1 {
 				okAll = false
 				continue
 			}
-			v := ret.Results[0]
+			vals := []ssa.Value{ret.Results[0]}
+			if phi, ok := ret.Results[0].(*ssa.Phi); ok {
+				vals = phi.Edges
+			}
+			for _, v := range vals {
+				retVals = append(retVals, struct {
+					v   ssa.Value
+					ret *ssa.Return
+				}{v, ret})
+			}
+		}
+		for _, rv := range retVals {
+			v, ret := rv.v, rv.ret
 			if c, ok := v.(*ssa.Const); ok && c.Value != nil && c.Value.String() == "false" {
 				// must be on the nil-account edge
 				continue
